@@ -11,6 +11,10 @@ class Undecided(AnalysisError):
     pass
 
 
+class MaskNotModulo(Exception):
+    """x & (N - 1) equals x mod N for every x iff N is a power of two (theorem); `align N` is defined for any N >= 1."""
+
+
 class F:
     """a*r + b*N + c"""
 
@@ -79,6 +83,18 @@ class Eval:
             pass
         if isinstance(node, ast.UnaryOp) and isinstance(node.op, ast.USub):
             return self.ev(node.operand, env).neg()
+        if isinstance(node, ast.BinOp) and isinstance(node.op, ast.BitAnd):
+            sides = []
+            for side in (node.left, node.right):
+                try:
+                    v = self.ev_p(side, env)
+                except Undecided:
+                    v = None
+                sides.append(v)
+            is_mask = [isinstance(v, F) and v.key() == (0, 1, -1) for v in sides]
+            if any(is_mask):
+                raise MaskNotModulo(text)
+            raise Undecided('bitwise and in {}'.format(text))
         if isinstance(node, ast.BinOp):
             if isinstance(node.op, ast.Mod):
                 if unparse(node.right) != self.n_expr:
@@ -194,8 +210,17 @@ def padding_normal_form(method, n_expr='self.alignment'):
     p = params[1]
     out = {}
     ok = True
+    pow2_guard = any(isinstance(n, ast.Compare) and any(isinstance(x, ast.BinOp) and isinstance(x.op, ast.BitAnd) for x in ast.walk(n)) for n in ast.walk(method))
     for case, want in (('zero', F()), ('nonzero', F(a=-1, b=1))):
-        got = Eval(method, n_expr, p, case).block(method.body, {})
+        try:
+            got = Eval(method, n_expr, p, case).block(method.body, {})
+        except MaskNotModulo as e:
+            if pow2_guard:
+                raise Undecided('bit mask with the alignment under a power-of-two test: {}'.format(e))
+            out[case] = 'bit-mask `{}`: equals the residue modulo N only when N is a power of two'.format(e)
+            out['mask'] = str(e)
+            ok = False
+            continue
         out[case] = repr(got)
         if got.key() != want.key():
             ok = False
